@@ -356,7 +356,7 @@ def rule_lattice(prog: Program) -> List[Instance]:
         for n in walk_own(f.node):
             if isinstance(n, ast.Assign) and isinstance(n.targets[0], ast.Tuple) and n.targets[0].elts and isinstance(n.targets[0].elts[0], ast.Name) and short(n.value) == stream:
                 ref = n.targets[0].elts[0].id
-            if isinstance(n, ast.Assign) and isinstance(n.targets[0], ast.Name) and isinstance(n.value, ast.Call) and call_name(n.value) in ("bbox_union", "bbox_intersection"):
+            if isinstance(n, ast.Assign) and isinstance(n.targets[0], ast.Name) and any(isinstance(c, ast.Call) and call_name(c) in ("bbox_union", "bbox_intersection") for c in ast.walk(n.value)):
                 box = n.targets[0].id
         if ref is None or box is None:
             out.append(Instance("R-LATTICE", f"{q}#origin", UNDET, "reference geobox / folded box not identified", f.where()))
